@@ -294,7 +294,7 @@ ALL_MACS = ["sha", "sha256", "sha384", "md5", "aead"]
 ALL_VERSIONS = [(3, 0), (3, 1), (3, 2), (3, 3), (3, 4)]
 
 
-def handshake(ver, cipher, mac, etm, crsl, srsl, seed, resume=None):
+def handshake(ver, cipher, mac, etm, crsl, srsl, seed, resume=None, presize=None):
     """resume: None | 'id' (session cache) | 'ticket' (TLS<=1.2 ticket / TLS 1.3 PSK): a first full
     connection, then the connection that is returned resumes its session (None if it did not)."""
     import loop
@@ -323,6 +323,9 @@ def handshake(ver, cipher, mac, etm, crsl, srsl, seed, resume=None):
                 skw = dict(certChain=chain, privateKey=key, settings=ss)
                 if cache is not None:
                     skw['sessionCache'] = cache
+                if presize is not None:
+                    # documented use: recordSize "can be set to low value ... at the beginning of connection"
+                    p.client.recordSize, p.server.recordSize = presize
                 co, so = p.handshake(client_kw=ckw, server_kw=skw)
                 if not (loop.classify(co) == ('ok',) and loop.classify(so) == ('ok',)):
                     p = None
@@ -382,7 +385,8 @@ def conn_case(args):
     import loop
     rng = random.Random(seed)
     res = dict(args=args, viol=[], stats=dict(writes=0, reads=0, bytes=0, records=0), lens=[], lims=[])
-    p = handshake(ver, cipher, mac, etm, crsl, srsl, seed, resume=opt.get('resume'))
+    p = handshake(ver, cipher, mac, etm, crsl, srsl, seed, resume=opt.get('resume'),
+                  presize=(user_c, user_s) if opt.get('presize') else None)
     if p is None:
         res['skip'] = 'handshake failed'
         return res
@@ -393,8 +397,9 @@ def conn_case(args):
     t13 = ver >= (3, 4)
     ends = {'c': p.client, 's': p.server}
     socks = {'c': p.csock, 's': p.ssock}
-    ends['c'].recordSize = user_c
-    ends['s'].recordSize = user_s
+    if not opt.get('presize'):          # otherwise it was assigned before the handshake and must still be in force
+        ends['c'].recordSize = user_c
+        ends['s'].recordSize = user_s
     if pad is not None and t13:
         for e in ends.values():
             e._recordLayer.padding_cb = U.pad_fn(pad)
@@ -445,6 +450,8 @@ def conn_case(args):
                 # content+type+padding <= peer's record_size_limit; content <= user recordSize
                 if lo > cap:
                     res['viol'].append(('record-exceeds-limit', 'inner plaintext %d > record_size_limit %d' % (lo, cap), n))
+                elif pad is None and lo - 1 > user:
+                    res['viol'].append(('record-exceeds-limit', 'content %d > recordSize %d' % (lo - 1, user), n))
             elif lo > cap:
                 res['viol'].append(('record-exceeds-limit', 'plaintext >= %d > limit %d' % (lo, cap), n))
         if t13:
@@ -735,6 +742,12 @@ def run(ctx):
                                 ((2 ** 14 + 1, 64), (100, 2 ** 14 + 1), (64, 100), (2 ** 14, 2 ** 14 + 1), (None, 64)):
                             jobs.append((ver, ci, m, etm, a, b, 2 ** 14, 2 ** 14, ctx.rng.randrange(1 << 30), quick, None,
                                          (('resume', mode),)))
+                # recordSize assigned BEFORE the handshake (full and resumed) must still be the limit in force afterwards
+                if etm == etms[0] and (not quick or ci in ('aes128', 'aes128gcm', 'rc4')):
+                    for (uc, us, rmode) in ((256, 37, None), (64, 2 ** 14, 'id' if ver < (3, 4) else 'ticket')) if quick else \
+                            ((256, 37, None), (64, 2 ** 14, 'id' if ver < (3, 4) else 'ticket'), (100, 100, 'ticket'), (2 ** 14, 64, None)):
+                        o = (('presize', True),) + ((('resume', rmode),) if rmode else ())
+                        jobs.append((ver, ci, m, etm, 2 ** 14 + 1, 2 ** 14 + 1, uc, us, ctx.rng.randrange(1 << 30), quick, None, o))
                 # the peer closes while the reader waits for `min` bytes
                 if etm == etms[0] and (not quick or ci in ('aes128', 'aes128gcm')):
                     for how in ('notify', 'abrupt'):
